@@ -21,7 +21,8 @@ def plainOutcomeAt (cfg : Cfg) (l : Lid) (name : Name) : Outcome :=
     | some .unreadable => .failed (.reported "PCORE_UNABLE_TO_READ_FILE" (some p) 0)
     | none => .failed (.reported "PCORE_UNABLE_TO_READ_FILE" (some p) 0)
 
-theorem module_plain (cfg : Cfg) (mod : String) (hv : cfg.via = .m mod) (hm : isGlobalMod mod = false)
+theorem module_plain (cfg : Cfg) (mod : String) (hv : cfg.via = .m mod) (hflat : cfg.flat = false)
+    (hm : isGlobalMod mod = false)
     (a b : String) (s : St) (n : Nat)
     (hparts : partsOf [a, b] = some [mod, lowerS b])
     (hsys : sysLoad [a, b] = none)
@@ -32,9 +33,10 @@ theorem module_plain (cfg : Cfg) (mod : String) (hv : cfg.via = .m mod) (hm : is
     (hnt : ∀ nm ts, bodyAt cfg.tree p ≠ some (.typ .typeset nm ts)) :
     (loadS (n+9) cfg s [a, b]).1 = plainOutcomeAt cfg (.m mod) [a, b] ∧
     (loadS (n+9) cfg s [a, b]).2.reads = s.reads ++ [p] := by
-  obtain ⟨mods, tree, via, gi⟩ := cfg
-  simp only at hv
+  obtain ⟨mods, tree, via, gi, fl⟩ := cfg
+  simp only at hv hflat
   subst hv
+  subst hflat
   have hmne : mod ≠ "" := by intro h; subst h; simp [isGlobalMod] at hm
   have hq : qualified [a, b] = true := rfl
   have hq1 : qualified [a] = false := rfl
@@ -43,7 +45,7 @@ theorem module_plain (cfg : Cfg) (mod : String) (hv : cfg.via = .m mod) (hm : is
   have hne : (Lid.g, keyOf [a, b]) ≠ (Lid.m mod, keyOf [a, b]) := by intro h; cases h
   unfold loadS load
   simp only [loadEntry, fbLoadEntry, find_g, findTail, parentSearch, bind, pure, getSt, hsys, hg1, hg2, hi1, hi2, hq, hq1,
-    hdl, hdl1, if_true]
+    hdl, hdl1, if_true, Bool.false_eq_true, if_false]
   simp [setEntry, hg1, get_put, hm1, hne.symm, hne, find, Lid.moduleName, hq, hmne, partsM, hparts, findTail, hi,
     instantiate, bind, pure, getSt, instantiator, modifySt]
   unfold plainOutcomeAt
@@ -64,7 +66,8 @@ theorem module_plain (cfg : Cfg) (mod : String) (hv : cfg.via = .m mod) (hm : is
       · simp [addTypes, setEntry, get_put, bind, pure, hk, hkt]
       · simp [raise, hk]
 
-theorem dependency_plain (cfg : Cfg) (mod : String) (hv : cfg.via = .d) (hmods : cfg.mods.contains mod = true)
+theorem dependency_plain (cfg : Cfg) (mod : String) (hv : cfg.via = .d) (hflat : cfg.flat = false)
+    (hmods : cfg.mods.contains mod = true)
     (hm : isGlobalMod mod = false)
     (a b : String) (s : St) (n : Nat)
     (hparts : partsOf [a, b] = some [mod, lowerS b])
@@ -77,9 +80,10 @@ theorem dependency_plain (cfg : Cfg) (mod : String) (hv : cfg.via = .d) (hmods :
     (hnt : ∀ nm ts, bodyAt cfg.tree p ≠ some (.typ .typeset nm ts)) :
     (loadS (n+11) cfg s [a, b]).1 = plainOutcomeAt cfg (.m mod) [a, b] ∧
     (loadS (n+11) cfg s [a, b]).2.reads = s.reads ++ [p] := by
-  obtain ⟨mods, tree, via, gi⟩ := cfg
-  simp only at hv
+  obtain ⟨mods, tree, via, gi, fl⟩ := cfg
+  simp only at hv hflat
   subst hv
+  subst hflat
   simp only at hmods
   have hmne : mod ≠ "" := by intro h; subst h; simp [isGlobalMod] at hm
   have hmods' : mods.isEmpty = false := by
@@ -97,7 +101,7 @@ theorem dependency_plain (cfg : Cfg) (mod : String) (hv : cfg.via = .d) (hmods :
   simp only [loadEntry, dLoadEntry, dFind, bind, pure, getSt, hd1, hmods', hq, partsM, hparts, Bool.not_false,
     Bool.and_self, if_true, List.head?, hmods]
   simp only [fbLoadEntry, find_g, findTail, parentSearch, bind, pure, getSt, hsys, hg1, hg2, hi1, hi2, hq, hq1,
-    hdl, hdl1, if_true]
+    hdl, hdl1, if_true, Bool.false_eq_true, if_false]
   simp [setEntry, hg1, get_put, hm1, hne.symm, hne, find, Lid.moduleName, hq, hmne, partsM, hparts, findTail, hi,
     instantiate, bind, pure, getSt, instantiator, modifySt]
   unfold plainOutcomeAt
@@ -143,7 +147,8 @@ theorem plainOutcomeAt_found (cfg : Cfg) (l : Lid) (name : Name) :
         · simp [hb, hk]
 
 /-- nothing anywhere on the route of `Mod::X`: two placeholders (global loader, module loader), no read -/
-theorem module_absent (cfg : Cfg) (mod : String) (hv : cfg.via = .m mod) (hm : isGlobalMod mod = false)
+theorem module_absent (cfg : Cfg) (mod : String) (hv : cfg.via = .m mod) (hflat : cfg.flat = false)
+    (hm : isGlobalMod mod = false)
     (a b : String) (s : St) (n : Nat)
     (hparts : partsOf [a, b] = some [mod, lowerS b]) (hparts1 : partsOf [a] = some [mod])
     (hsys : sysLoad [a, b] = none)
@@ -153,9 +158,10 @@ theorem module_absent (cfg : Cfg) (mod : String) (hv : cfg.via = .m mod) (hm : i
     (hi3 : idx cfg (.m mod) (keyOf [a, b]) = []) (hi4 : idx cfg (.m mod) ["init_typeset"] = []) :
     loadS (n+9) cfg s [a, b] =
       (.notfound, (s.put .g (keyOf [a, b]) none).put (.m mod) (keyOf [a, b]) none) := by
-  obtain ⟨mods, tree, via, gi⟩ := cfg
-  simp only at hv
+  obtain ⟨mods, tree, via, gi, fl⟩ := cfg
+  simp only at hv hflat
   subst hv
+  subst hflat
   have hmne : mod ≠ "" := by intro h; subst h; simp [isGlobalMod] at hm
   have hq : qualified [a, b] = true := rfl
   have hq1 : qualified [a] = false := rfl
@@ -165,7 +171,7 @@ theorem module_absent (cfg : Cfg) (mod : String) (hv : cfg.via = .m mod) (hm : i
   have hne' : (Lid.m mod, keyOf [a]) ≠ (Lid.g, keyOf [a, b]) := by intro h; cases h
   unfold loadS load
   simp only [loadEntry, fbLoadEntry, find_g, findTail, parentSearch, bind, pure, getSt, hsys, hg1, hg2, hi1, hi2, hq, hq1,
-    hdl, hdl1, if_true]
+    hdl, hdl1, if_true, Bool.false_eq_true, if_false]
   simp [setEntry, hg1, get_put, hm1, hm2, hne.symm, hne, hne', find, Lid.moduleName, hq, hq1, hm, hmne, partsM, hparts,
     hparts1, findTail, hi3, hi4, parentSearch, hdl, hdl1, bind, pure, getSt]
 
